@@ -33,6 +33,7 @@ class LexMod:
         self.captured = None      # (closure value, state) at from_fn
         self.cur_char = None
         self.viol = []
+        self.last_runset = None
 
     # abstract input: ('abs','in')  ; pieces: ('abs','pre',k) ('abs','suf',k) ; index ('abs','idx',k)
     def intrinsic(self, I, callee, args, st, n):
@@ -48,6 +49,16 @@ class LexMod:
                 return [(OK, ("abs", "idx", ("len",)), st)]
             if c == "core::str::<impl str>::find":
                 pred = args[1]
+                # the run set: characters on which the stop predicate is false (evaluated for every class)
+                runset = []
+                for ch in CHARS:
+                    rs = I.apply(pred, [("char", ch)], st, n)
+                    if len(rs) == 1 and rs[0][0] == OK and rs[0][1] == ("bool", False):
+                        runset.append(ch)
+                    elif not (len(rs) == 1 and rs[0][0] == OK and rs[0][1] == ("bool", True)):
+                        runset = None
+                        break
+                self.last_runset = frozenset(runset) if runset is not None else None
                 # evaluate the stop predicate on the first character
                 res = I.apply(pred, [("char", self.cur_char)], st, n)
                 out = []
@@ -257,6 +268,7 @@ def extract(F, fn_key="deb822_lossless::lex::lex_"):
                 cell["partition"] = False
                 k_t = k_in or ("unknown",)
             cell["k"] = k_t
+            cell["runset"] = mod.last_runset if k_t and k_t[0] == "find" else None
             cell["boundary"] = mod.boundary(k_t) if k_t else None
             cell["nonempty"] = mod.nonempty(k_t) if k_t else None
             res["cells"].append(cell)
